@@ -179,10 +179,17 @@ def t_result_type(ctx):
     class RE(env.BaseEvent[list[int]]):
         pass
 
+    class RG(RC):                       # second level below BaseEvent[int], nothing re-declared
+        pass
+
+    class RH(RD):                       # second level below an explicit re-declaration
+        pass
+
     class RF(RE):
         event_result_type: Any = dict[str, int]
 
-    classes = [('RA', RA, int), ('RB', RB, None), ('RC', RC, int), ('RD', RD, str), ('RE', RE, list[int]), ('RF', RF, dict[str, int])]
+    classes = [('RA', RA, int), ('RB', RB, None), ('RC', RC, int), ('RD', RD, str), ('RE', RE, list[int]), ('RF', RF, dict[str, int]),
+               ('RG', RG, int), ('RH', RH, str)]
     perms = list(itertools.permutations(range(len(classes))))
     pi = int(ctx.int('order', 0, len(perms) - 1)) if ctx.cfg.get('all_orders') else None
     if pi is None:
